@@ -169,6 +169,7 @@ class FakeSocket(object):
         self.link = None
         self.closed = False
         self.shut = False
+        self.timeout = None
         world.sockets.append(self)
 
     def connect(self, addr):
@@ -184,7 +185,7 @@ class FakeSocket(object):
     def fileno(self):
         return -1 if self.closed else 2000 + id(self) % 1000
 
-    def send(self, data):
+    def send(self, data, _all=False):
         link = self.link
         if self.closed:
             raise OSError(errno.EBADF, 'Bad file descriptor')
@@ -196,13 +197,20 @@ class FakeSocket(object):
         if link.send_error is not None:
             raise link.send_error
         data = bytes(data)
+        if self.timeout is not None and not _all:
+            # A socket with a timeout is non-blocking underneath: send()
+            # transmits what fits and returns the count ("applications are
+            # responsible for checking that all data has been sent").  The
+            # fake makes that visible: at most `partial_send` bytes per call.
+            data = data[:max(1, self.world.partial_send)]
         with link.cond:
             link.c2s += data
             link.log('send', len(data))
         self.world.run_script(link, data)
         return len(data)
 
-    sendall = send
+    def sendall(self, data):
+        self.send(data, _all=True)
 
     def recv(self, n):
         return FakeFile(self.link).read(n)
@@ -232,7 +240,13 @@ class FakeSocket(object):
                     self.link.cond.notify_all()
 
     def settimeout(self, t):
-        pass
+        self.timeout = t
+
+    def gettimeout(self):
+        return self.timeout
+
+    def setblocking(self, flag):
+        self.timeout = None if flag else 0.0
 
     def setsockopt(self, *a):
         pass
@@ -269,6 +283,7 @@ class World(object):
         self.seq_lock = threading.Lock()
         self.block_guard = 0.25
         self.max_connects = 40      # per case; more is a reconnect loop
+        self.partial_send = 3       # bytes per send() on a socket with timeout
         self.runaway = False
         self.scheduler = None
         self.resolved = []
